@@ -153,6 +153,7 @@ def run(chk):
            'to the outer SELECT by SQL, whatever the sub-query reads',
            fi=dc.fi, node=r)
   K.dialect_entangles(chk, 'C02-R2')
+  K.entangle_attached(chk, 'C02-R2')
   ext = s.need_calls(EXTRACT)
   for n, c in ext:
     decorated = dec and c.args and isinstance(c.args[0], ast.Name) and any(
@@ -270,6 +271,42 @@ def run(chk):
            'exist; every constructor of an aggregation node builds the key set '
            'the rewrite consumes; negation is IsNull(combine Min= 1)',
            min_instances=8)
+  # several bodies of one aggregating predicate are joined by a positional
+  # UNION ALL of their auxiliary rules: they may only be accepted when their
+  # heads list the same fields IN THE SAME ORDER, so the signature that is
+  # compared is an ordered sequence
+  mb = FnView(repo, 'parse.MultiBodyAggregation.Rewrite')
+  cmp_ = [x for x in walk_local(mb.fi.node) if isinstance(x, ast.Compare) and len(x.ops) == 1 and
+          isinstance(x.ops[0], (ast.NotEq, ast.Eq)) and
+          any(any(isinstance(r_, ast.Raise) for r_ in ast.walk(i_)) for i_ in walk_local(mb.fi.node)
+              if isinstance(i_, ast.If) and any(y is x for y in ast.walk(i_.test)))]
+  if not cmp_:
+    raise AnalysisError('MultiBodyAggregation.Rewrite: signature comparison not recognised')
+  unordered = None
+  for x in cmp_:
+    for side in (x.left, x.comparators[0]):
+      texts = [mb.expand(side, 3)]
+      for c in ast.walk(texts[0]):
+        if isinstance(c, ast.Call):
+          for t in repo.resolve(mb.fi, c):
+            if t.startswith('parse.MultiBodyAggregation.'):
+              h = FnView(repo, t)
+              texts += [h.expand(r_.value, 3) for _, r_ in h.returns() if r_.value is not None]
+              texts += [y for y in walk_local(h.fi.node) if isinstance(y, ast.Call) and
+                        call_tail(y) in ('sort', 'reverse')]
+      for t_ in texts:
+        for c in ast.walk(t_):
+          if isinstance(c, ast.Call) and call_tail(c) in ('sorted', 'set', 'frozenset', 'reversed',
+                                                          'sort', 'reverse', 'Counter'):
+            unordered = c
+          elif isinstance(c, (ast.SetComp, ast.DictComp, ast.Set)):
+            unordered = c
+  chk.ob('C02-R4', unordered is None, None,
+         'bodies of one aggregating predicate are accepted only with identical field order',
+         'the signature compared across bodies is normalised by `%s`: bodies that list '
+         'the same fields in another order are accepted, and the positional UNION ALL of '
+         'their auxiliary rules puts aggregated values into key columns'
+         % (norm(unordered, 50) if unordered is not None else ''), fi=mb.fi, node=cmp_[0])
   ao = repo.func('parse.AggergationsAsExpressions.AggregationOperator')
   base_f, _ = templates.class_table(repo, 'QL', 'BUILT_IN_FUNCTIONS')
   # the mapping is evaluated, not pattern-matched: AggregationOperator applied
